@@ -653,6 +653,8 @@ func (c *c08Run) pair(v cty.Value, t cty.Type, deep bool) {
 	ctx.Eval(vw+" "+tw, !v.Type().Equals(t))
 	ctx.Tag("convert:" + out.kind)
 	ctx.Tag("pair:" + c08Kind(v.Type()) + ">" + c08Kind(t))
+	c.unmarkCommutes(v, t, out) // d08b
+	c.conformingIdentity(v, t, out) // d08b
 	stripped := t.WithoutOptionalAttributesDeep()
 
 	// no_panic
@@ -1013,6 +1015,7 @@ func runC08(ctx *Ctx) {
 	if sec("0") {
 		c08Probes(ctx)
 		c08D08(c)
+		c08D08b(c)
 		for _, s := range c08NumStrings {
 			c08Parse(ctx, s)
 		}
